@@ -570,8 +570,6 @@ def r17_6(rep, prog):
         for x in f.all_nodes():
             if x[0] == 'assign' and sx.kind(sx.strip(x[1])) == 'deref' and sx.kind(sx.strip(sx.strip(x[1])[1])) == 'param':
                 outs.append(x)
-        if not outs:
-            continue
         rep.functions.add(f.name)
         # locals assigned from a min(.,.) idiom
         clamps = set()
@@ -582,6 +580,11 @@ def r17_6(rep, prog):
                     c = sx.strip(rr[1])
                     if sx.kind(c) == 'bin' and c[1] in ('<', '<=', '>', '>='):
                         clamps.add(l['id'])
+        if not outs and clamps and any('*' in q['type'] and 'const' not in q['type'] and q['name'] == 'value' for q in f.params):
+            n += 1
+            rep.violated('R17.6', '%s:%s reports the clamped value back to its caller' % (prog.config, f.name), f.where(),
+                         'the function clamps (%s) but never stores through its in/out `value` parameter: the caller keeps the unclamped value' % ', '.join(sorted(f.locals[c]['name'] for c in clamps)),
+                         key=f.name + ':writeback')
         for x in outs:
             n += 1
             seen, work = set(), [y[2] for y in sx.walk(x[2]) if sx.kind(y) == 'local']
